@@ -123,7 +123,7 @@ func vfC15BwDepth(s string) int {
 	return 2
 }
 
-func vfC15RunBw(c *vt.Ctx, s vfC15BwScenario) {
+func vfC15RunBw(c g.Sink, s vfC15BwScenario) {
 	v := string(s.Value)
 	c.Label("kind:" + s.Kind)
 	d := vfC15BwDepth(v)
@@ -149,7 +149,7 @@ func vfC15RunBw(c *vt.Ctx, s vfC15BwScenario) {
 	c.Label("result:accepted")
 }
 
-func TestVerifC15Bandwidth(t *testing.T) { vt.Run(t, vfC15GenBw, g.NoPanic(vfC15RunBw)) }
+func TestVerifC15Bandwidth(t *testing.T) { vt.Run(t, vfC15GenBw, g.NoPanic(g.Adapt(vfC15RunBw))) }
 
 // Second sentence of the statement: well-formed values are accepted with or without a
 // unit, aliases of a unit agree, one unit step scales by 1024 (up to the integer
@@ -169,7 +169,7 @@ func vfC15GenScale(t *rapid.T) vfC15ScaleScenario {
 	}
 }
 
-func vfC15RunScale(c *vt.Ctx, s vfC15ScaleScenario) {
+func vfC15RunScale(c g.Sink, s vfC15ScaleScenario) {
 	c.NonTrivial()
 	if s.MilliA%1000 != 0 {
 		c.Label("fractional")
@@ -231,7 +231,9 @@ func vfC15RunScale(c *vt.Ctx, s vfC15ScaleScenario) {
 	}
 }
 
-func TestVerifC15BandwidthScale(t *testing.T) { vt.Run(t, vfC15GenScale, g.NoPanic(vfC15RunScale)) }
+func TestVerifC15BandwidthScale(t *testing.T) {
+	vt.Run(t, vfC15GenScale, g.NoPanic(g.Adapt(vfC15RunScale)))
+}
 
 // Deterministic witness of F-2, printed only while the finding is listed as open.
 func TestVerifC15KnownWitnessBandwidthNoUnit(t *testing.T) {
@@ -399,7 +401,7 @@ func vfC15BuildPod(s vfC15PodScenario) *corev1.Pod {
 	return pod
 }
 
-func vfC15RunPod(c *vt.Ctx, s vfC15PodScenario) {
+func vfC15RunPod(c g.Sink, s vfC15PodScenario) {
 	c.Label("kind:" + s.Kind)
 	mode := daemon.ModeENIMultiIP
 	if s.Mode == 1 {
@@ -454,7 +456,7 @@ func vfC15RunPod(c *vt.Ctx, s vfC15PodScenario) {
 	_ = k.clean()
 }
 
-func TestVerifC15ConvertPod(t *testing.T) { vt.Run(t, vfC15GenPod, g.NoPanic(vfC15RunPod)) }
+func TestVerifC15ConvertPod(t *testing.T) { vt.Run(t, vfC15GenPod, g.NoPanic(g.Adapt(vfC15RunPod))) }
 
 // ---------------------------------------------------------------------------------
 // stored pod records (bolt value bytes) -> deserialize -> consumers
@@ -511,7 +513,7 @@ func vfC15GenStore(t *rapid.T) vfC15StoreScenario {
 
 const vfC15NilPod = "C15-podstore-nil-pod"
 
-func vfC15RunStore(c *vt.Ctx, s vfC15StoreScenario) {
+func vfC15RunStore(c g.Sink, s vfC15StoreScenario) {
 	c.Label("kind:" + s.Kind)
 	// class of the finding: a record that decodes, but to an item without pod info
 	for _, r := range s.Records {
@@ -600,7 +602,7 @@ func vfC15RunStore(c *vt.Ctx, s vfC15StoreScenario) {
 	_ = k.clean()
 }
 
-func TestVerifC15PodStore(t *testing.T) { vt.Run(t, vfC15GenStore, g.NoPanic(vfC15RunStore)) }
+func TestVerifC15PodStore(t *testing.T) { vt.Run(t, vfC15GenStore, g.NoPanic(g.Adapt(vfC15RunStore))) }
 
 // Deterministic witness, printed only while the finding is listed as open.
 func TestVerifC15KnownWitnessPodStoreNilPod(t *testing.T) {
